@@ -141,27 +141,45 @@ Theorem C11_rewards_conserved : forall tok, tok = 0 \/ tok = 1 -> forall ops ds 
   minted_of tok a minted + tok_of tok (dep_get a ds) + credited tok a ops.
 Proof. exact rewards_conserved. Qed.
 
-(* FINDING (known_findings.d/C11.json, key liquidity-cursor-rewards-every-epoch-it-passes):
-   updateLiquidityRewards (liquidity contract before the bridge-and-liquidity spork) does not satisfy the
-   cursor statement: with more than MaxEpochsPerUpdate/2 epochs due it advances the cursor past an epoch
-   without minting its reward. *)
-Theorem C11_liquidity_cursor_refuted :
-  exists g dur now last es l',
-    cursor_ok g dur last /\ now < two62 /\
-    liquidity_loop 100 g dur now last 0 = Some (es, l') /\
-    l' <> last + Z.of_nat (length es).
-Proof. exact liquidity_cursor_refuted. Qed.
-
-(* ... and satisfies it whenever at most MaxEpochsPerUpdate/2 epochs are due in one call *)
-Theorem C11_liquidity_cursor_partial : forall fuel g dur now last es l',
+(* the liquidity contract (method table before the bridge-and-liquidity spork), code after fix a732e8e: one Update
+   rewards exactly LastEpoch+1 .. LastEpoch+k in order and stores LastEpoch+k, every rewarded epoch ended
+   RewardTimeLimit before the acknowledged momentum, at most MaxEpochsPerUpdate/2 epochs per call, and it stops
+   before a due epoch only because of that limit (the next Update continues with exactly that epoch) *)
+Theorem C11_liquidity_cursor : forall fuel g dur now last es l',
   cursor_ok g dur last -> now < two62 ->
-  cursor_ok g dur (last + MaxEpochsPerUpdate / 2) ->
-  update_due g dur now (last + MaxEpochsPerUpdate / 2) = false ->
   liquidity_loop fuel g dur now last 0 = Some (es, l') ->
   es = zrange (last + 1) (length es) /\ l' = last + Z.of_nat (length es) /\
   Forall (fun e => epoch_end g dur e + RewardTimeLimit <= now) es /\
-  now < epoch_end g dur (l' + 1) + RewardTimeLimit.
-Proof. exact liquidity_cursor_partial. Qed.
+  cursor_ok g dur l' /\
+  (es <> [] -> 2 * Z.of_nat (length es) < MaxEpochsPerUpdate + 2) /\
+  (now < epoch_end g dur (l' + 1) + RewardTimeLimit \/ MaxEpochsPerUpdate <= 2 * Z.of_nat (length es)).
+Proof.
+  intros fuel g dur now last es l' H1 H2 H3.
+  destruct (liquidity_loop_spec fuel g dur now last 0 es l' H1 H2 (Z.le_refl 0) H3) as [A [B [C [D [E F]]]]].
+  split; [exact A|]. split; [exact B|]. split; [exact C|]. split; [exact D|].
+  split; [intros X; specialize (E X); lia|]. destruct F as [F|F]; [left; exact F|right; lia].
+Qed.
+
+(* over any history of liquidity Updates: every epoch up to the cursor is rewarded exactly once, in order *)
+Theorem C11_liquidity_once_per_epoch : forall fuel g dur nows last es l',
+  cursor_ok g dur last -> Forall (fun now => now < two62) nows ->
+  run_liquidity_updates fuel g dur nows last = Some (es, l') ->
+  es = zrange (last + 1) (length es) /\ l' = last + Z.of_nat (length es) /\ NoDup es /\ StronglySorted Z.lt es.
+Proof.
+  intros fuel g dur nows last es l' H1 H2 H3.
+  destruct (run_liquidity_updates_spec fuel g dur nows last es l' H1 H2 H3) as [A B].
+  split; [exact A|]. split; [exact B|]. rewrite A. split; [apply zrange_nodup | apply zrange_sorted].
+Qed.
+
+(* record of the defect fixed in /repo a732e8e (known_findings.d/C11.json, fixed): the loop as it was did not satisfy
+   the cursor statement: with more than MaxEpochsPerUpdate/2 epochs due it advanced the cursor past an epoch
+   without minting its reward *)
+Theorem C11_liquidity_cursor_refuted :
+  exists g dur now last es l',
+    cursor_ok g dur last /\ now < two62 /\
+    liquidity_loop_old 100 g dur now last 0 = Some (es, l') /\
+    l' <> last + Z.of_nat (length es).
+Proof. exact liquidity_cursor_refuted. Qed.
 
 (* non-vacuity: well-formed statistics with two pillars, one backer each; all hypotheses of C11_pillar_bounded hold
    and the routine completes *)
